@@ -416,6 +416,20 @@ fn apply(name: &str, inner: BoxSvc, lc: &Arc<ListenerCounts>) -> Option<BoxSvc> 
                 .max_attempts(2)
                 .retry_on_reconnect(true)
                 .reconnect_predicate(|e| e.to_string().contains("ierr1"))
+                // the crate (feature `tracing`) has one callback per kind, not a listener list: run the three
+                // listeners inside it, each under catch_unwind, and let the callback itself panic if one of them did
+                .on_state_change(move |_, _| {
+                    let mut panicked = false;
+                    for i in 0..3 {
+                        let l = l0.clone();
+                        if std::panic::catch_unwind(std::panic::AssertUnwindSafe(move || l.hit(i))).is_err() {
+                            panicked = true;
+                        }
+                    }
+                    if panicked {
+                        panic!("state-change callback panics");
+                    }
+                })
                 .build();
             let layer = ReconnectLayer::new(cfg);
             boxed(layer.layer(inner).map_err(|e| reconnect_err(e.to_string())))
